@@ -289,7 +289,7 @@ func ruleVLQ(c *Ctx, rEnc, rDec, rComp string) {
 // 32-bit length of the body and then exactly that body.
 func ruleChunkFraming(c *Ctx, rule string) {
 	p := c.P
-	ct := p.namedType("smf", "chunk")
+	ct := p.roleT("smf.chunk")
 	var wt *ssa.Function
 	if ct != nil {
 		wt = p.MethodOf(types.NewPointer(ct), "WriteTo")
@@ -350,7 +350,7 @@ func intVals(xs []*IntV) []Val {
 }
 
 func body2src(ex *Exec, st *State, s *SliceV) string {
-	if arr, ok := st.heap[s.Obj].(*ArrayV); ok && len(arr.Segs) == 1 && arr.Segs[0].Run != nil {
+	if arr, ok := ex.arrOf(st, s); ok && len(arr.Segs) == 1 && arr.Segs[0].Run != nil {
 		return arr.Segs[0].Run.Src
 	}
 	return "?"
@@ -362,7 +362,7 @@ func body2src(ex *Exec, st *State, s *SliceV) string {
 // headerWriter: the module function reachable from WriteTo that takes an io.Writer and serialises a local chunk.
 func findHeaderWriter(p *Program) *ssa.Function {
 	wt := p.Method("smf", "SMF", "WriteTo")
-	ct := p.namedType("smf", "chunk")
+	ct := p.roleT("smf.chunk")
 	if wt == nil || ct == nil {
 		return nil
 	}
@@ -394,7 +394,7 @@ func findHeaderWriter(p *Program) *ssa.Function {
 
 // mkWriterObj builds an abstract *writer whose SMF has the given header fields and a nil logger.
 func mkWriterObj(ex *Exec, st *State, p *Program, format, ntracks *IntV, tf Val) (*PtrV, *PtrV) {
-	wT := p.namedType("smf", "writer")
+	wT := p.roleT("smf.writer")
 	sT := p.namedType("smf", "SMF")
 	if wT == nil || sT == nil {
 		return nil, nil
@@ -746,7 +746,7 @@ func ruleEventEncode(c *Ctx, rule string) {
 // findTrackFlush: module function reachable from WriteTo that serialises a chunk held in a struct field.
 func findTrackFlush(p *Program) *ssa.Function {
 	wt := p.Method("smf", "SMF", "WriteTo")
-	ct := p.namedType("smf", "chunk")
+	ct := p.roleT("smf.chunk")
 	if wt == nil || ct == nil {
 		return nil
 	}
@@ -973,7 +973,7 @@ func findHeaderParser(p *Program) *ssa.Function {
 }
 
 func mkReaderObj(ex *Exec, st *State, p *Program) (*PtrV, *PtrV) {
-	rT := p.namedType("smf", "reader")
+	rT := p.roleT("smf.reader")
 	sT := p.namedType("smf", "SMF")
 	if rT == nil || sT == nil {
 		return nil, nil
@@ -1716,7 +1716,7 @@ func ruleAlienChunks(c *Ctx, rule string) {
 // first message only.
 func rulePlumbing(c *Ctx, rule string) {
 	p := c.P
-	wT := p.namedType("smf", "writer")
+	wT := p.roleT("smf.writer")
 	smfT := p.namedType("smf", "SMF")
 	trackT := p.namedType("smf", "Track")
 	if wT == nil || smfT == nil || trackT == nil {
@@ -1725,7 +1725,7 @@ func rulePlumbing(c *Ctx, rule string) {
 	}
 	setDelta := p.MethodOf(types.NewPointer(wT), "SetDelta")
 	write := p.MethodOf(types.NewPointer(wT), "Write")
-	newW := p.Func("smf", "newWriter")
+	newW := p.roleFunc("smf.newWriter")
 	if setDelta != nil && write != nil {
 		c.Fn(FuncName(write))
 		ex := NewExec(p)
@@ -1817,7 +1817,7 @@ func rulePlumbing(c *Ctx, rule string) {
 				for _, in := range b.Instrs {
 					switch x := in.(type) {
 					case *ssa.Store:
-						if fv := fieldVar(x.Addr); fv != nil && fv.Name() == "deltatime" {
+						if fv := fieldVar(x.Addr); p.isRoleField(fv, "smf.reader", "deltatime") {
 							// value must be the first result of the VLQ decoder (or 0 reset)
 							if ex, ok := x.Val.(*ssa.Extract); ok && ex.Index == 0 {
 								if call, ok := ex.Tuple.(*ssa.Call); ok && call.Common().StaticCallee() == dec {
@@ -1828,7 +1828,7 @@ func rulePlumbing(c *Ctx, rule string) {
 					case *ssa.Call:
 						if cal := x.Common().StaticCallee(); cal != nil && (cal.Name() == "Add" || cal.Name() == "Close") && namedTypeName(cal.Signature.Recv().Type()) == "Track" && f.Name() != "ConvertToSMF1" {
 							if l, ok := x.Common().Args[1].(*ssa.UnOp); ok {
-								if fv := fieldVar(l.X); fv != nil && fv.Name() == "deltatime" {
+								if fv := fieldVar(l.X); p.isRoleField(fv, "smf.reader", "deltatime") {
 									okUse++
 								}
 							}
